@@ -14,7 +14,13 @@ Same fail-closed translator as gen_facts_loader (class LoaderFn), extended by:
   W4  an f-string is EFormat of its formatted expressions (`hex(e)` is EHex e); its text is never observed.
   W5  `raise FlipJumpWriteFjmException(<message>)` is SRaiseExn (XLib 0) (the model has one class of library error).
   W6  `any(<generator>)` is EAny of the comprehension (the generator's elements are call-free comparisons).
-  W7  `continue`, a bare `return`, tuples / displays of any length (ECons chains), `enumerate`."""
+  W7  `continue`, a bare `return`, tuples / displays of any length (ECons chains), `enumerate`.
+  W8  write_to_file: `with open(self.<path>, 'wb') as f:` is P_file_open followed by the body, where `f` may only occur as
+      `f.write(e)` = P_file_write e (the output stream of the interpreter is the file; closing it changes nothing).
+  W9  `pack(<format>, a, b, ..)` / `pack(<format>, *xs)` with <format> a '<'-format constant of fjm_consts made of the codes
+      B H L Q is EPack [sizes] args (standard sizes 1 2 4 8).  `x = {k: '<code>', ..}[e]` is `x = EDictGet [(k, size)..] e`: the
+      variable then holds the SIZE of the code, and may only be used in `pack(f'<{n}{x}', *xs)` = EPackN n x xs.
+  W10 `self._compress_data(b)` is the primitive P_compress_data (lzma is an oracle; the wrapper stays hand-tied)."""
 import ast
 from pathlib import Path
 
@@ -24,7 +30,8 @@ from .gen_facts_loader import LoaderFn
 PATH = 'flipjump/fjm/fjm_writer.py'
 METHODS = ['add_data', 'add_segment', 'add_simple_segment_with_data', '_is_collision',
            '_validate_segment_addresses_not_overlapping', '_validate_segment_data_not_overlapping',
-           '_validate_segment_not_overlapping', '_update_to_relative_jumps', 'get_segment_addresses_repr']
+           '_validate_segment_not_overlapping', '_update_to_relative_jumps', 'get_segment_addresses_repr', 'write_to_file']
+CODES = {'B': 1, 'H': 2, 'L': 4, 'Q': 8}
 LIST_FIELDS = ('segments', 'data')
 
 
@@ -32,8 +39,48 @@ def coq_name(m):
     return 'w_' + m.lstrip('_')
 
 
+def const_int(node):
+    """the value of a module-level integer constant written with literals, + << and ord('<char>')"""
+    if isinstance(node, ast.Constant) and isinstance(node.value, int) and node.value is not True and node.value is not False:
+        return node.value
+    if isinstance(node, ast.Call) and isinstance(node.func, ast.Name) and node.func.id == 'ord' and len(node.args) == 1 and \
+            not node.keywords and isinstance(node.args[0], ast.Constant) and isinstance(node.args[0].value, str) and len(node.args[0].value) == 1:
+        return ord(node.args[0].value)
+    if isinstance(node, ast.BinOp) and isinstance(node.op, (ast.Add, ast.LShift)):
+        a, b = const_int(node.left), const_int(node.right)
+        if a is None or b is None or a < 0 or b < 0:
+            return None
+        return a + b if isinstance(node.op, ast.Add) else a << b
+    return None
+
+
 class WriterFn(LoaderFn):
     cls_name, path = 'Writer', PATH
+
+    def __init__(self, *a):
+        super().__init__(*a)
+        self.fmt_vars, self.file_vars, self.fmt_uses, self.file_uses = set(), set(), 0, 0
+
+    def pack(self, e):
+        """W9"""
+        if e.keywords or not e.args or 'pack' not in self.tr.imported['Writer'].get('struct', ()):
+            self.err(e, 'pack call outside the subset')
+        fmt, args = e.args[0], e.args[1:]
+        if len(args) == 1 and isinstance(args[0], ast.Starred):
+            a = self.expr(args[0].value)
+        elif any(isinstance(x, ast.Starred) for x in args):
+            self.err(e, 'mixed starred arguments')
+        else:
+            a = self.cons([self.expr(x) for x in args])
+        if isinstance(fmt, ast.Name) and fmt.id in self.tr.formats and fmt.id not in self.vars:
+            return f'EPack [{"; ".join(str(CODES[ch]) + "%nat" for ch in self.tr.formats[fmt.id][1:])}] ({a})'
+        if isinstance(fmt, ast.JoinedStr) and len(fmt.values) == 3 and isinstance(fmt.values[0], ast.Constant) and \
+                fmt.values[0].value == '<' and all(isinstance(v, ast.FormattedValue) and v.format_spec is None and v.conversion == -1
+                                                   for v in fmt.values[1:]) and \
+                isinstance(fmt.values[2].value, ast.Name) and fmt.values[2].value.id in self.fmt_vars:
+            self.fmt_uses += 1
+            return f'EPackN ({self.expr(fmt.values[1].value)}) (EVar {self.var(fmt.values[2].value.id)}) ({a})'
+        self.err(e, 'pack format outside rule W9')
 
     def cons(self, items):
         out = 'ENil'
@@ -55,12 +102,23 @@ class WriterFn(LoaderFn):
             if any(isinstance(x, ast.Starred) for x in e.elts):
                 self.err(e, 'starred element')
             return self.cons([self.expr(x) for x in e.elts])
+        if isinstance(e, ast.Name) and e.id in self.tr.int_consts and e.id not in self.vars and isinstance(e.ctx, ast.Load):
+            return f'EInt {self.tr.int_consts[e.id]}'      # an integer constant imported from fjm_consts (L5)
         if isinstance(e, ast.Attribute) and e.attr == 'value' and self.is_field(e.value) and e.value.attr == 'version':   # W2
             return self.expr(e.value)
         return super().expr(e)
 
     def call(self, e):
         f = e.func
+        if isinstance(f, ast.Name) and f.id == 'pack' and 'pack' not in self.vars:
+            return self.pack(e)
+        if isinstance(f, ast.Attribute) and f.attr == 'write' and isinstance(f.value, ast.Name) and f.value.id in self.file_vars \
+                and len(e.args) == 1 and not e.keywords:
+            self.file_uses += 1
+            return f'ECall1 P_file_write ({self.expr(e.args[0])})'
+        if isinstance(f, ast.Attribute) and f.attr == '_compress_data' and self.ref(f.value) == ('obj', 'device') and \
+                len(e.args) == 1 and not e.keywords and self.tr.has_compress:      # W10
+            return f'ECall1 P_compress_data ({self.expr(e.args[0])})'
         if isinstance(f, ast.Name) and f.id not in self.vars and not e.keywords and len(e.args) == 1:
             if f.id == 'hex':
                 return f'EHex ({self.expr(e.args[0])})'
@@ -82,6 +140,27 @@ class WriterFn(LoaderFn):
     def stmt(self, s, ind):
         if isinstance(s, ast.Continue):
             return 'SContinue'
+        if isinstance(s, ast.Assign) and len(s.targets) == 1 and isinstance(s.targets[0], ast.Name) and \
+                isinstance(s.value, ast.Subscript) and isinstance(s.value.value, ast.Dict):      # W9: the word-format table
+            d = s.value.value
+            ok = d.keys and all(isinstance(k, ast.Constant) and isinstance(k.value, int) and k.value >= 0 and k.value is not True
+                                and isinstance(v, ast.Constant) and v.value in CODES for k, v in zip(d.keys, d.values))
+            if not ok or self.store_count.get(s.targets[0].id) != 1:
+                self.err(s, 'dict display outside rule W9')
+            self.fmt_vars.add(s.targets[0].id)
+            tab = '; '.join(f'({k.value}, {CODES[v.value]})' for k, v in zip(d.keys, d.values))
+            return f'SAssign {self.var(s.targets[0].id)} (EDictGet [{tab}] ({self.expr(s.value.slice)}))'
+        if isinstance(s, ast.With):      # W8
+            it = s.items
+            c = it[0].context_expr if len(it) == 1 else None
+            if not (c is not None and isinstance(c, ast.Call) and isinstance(c.func, ast.Name) and c.func.id == 'open' and
+                    'open' not in self.vars and len(c.args) == 2 and not c.keywords and self.is_field(c.args[0]) and
+                    isinstance(c.args[1], ast.Constant) and c.args[1].value == 'wb' and
+                    isinstance(it[0].optional_vars, ast.Name) and self.store_count.get(it[0].optional_vars.id) == 1):
+                self.err(s, 'with statement outside rule W8')
+            self.file_vars.add(it[0].optional_vars.id)
+            body = self.block(s.body, ind)
+            return f'SSeq (SExpr (ECall0 P_file_open))\n{" " * ind}({body})'
         if isinstance(s, ast.Return) and s.value is None:
             return 'SReturn (ENone)'
         if isinstance(s, ast.Assign) and len(s.targets) == 1 and isinstance(s.targets[0], ast.Subscript) and \
@@ -129,8 +208,16 @@ class WriterFn(LoaderFn):
                 ok = True
             elif isinstance(p, ast.For) and p.iter is n:
                 ok = True
+            elif isinstance(p, ast.Starred) and isinstance(parents.get(p), ast.Call) and \
+                    isinstance(parents[p].func, ast.Name) and parents[p].func.id == 'pack':
+                ok = True
             if not ok:
                 self.err(n, f'list attribute {n.attr} used as a value (rule W1)')
+        # W8 / W9: the file handle and the format-size variable occur only in their rules
+        for names, uses, what in ((self.file_vars, self.file_uses, 'file handle'), (self.fmt_vars, self.fmt_uses, 'format variable')):
+            loads = sum(1 for n in ast.walk(self.node) if isinstance(n, ast.Name) and n.id in names and isinstance(n.ctx, ast.Load))
+            if loads != uses:
+                self.err(self.node, f'{what} used outside its rule')
 
 
 class Translator:
@@ -152,6 +239,18 @@ class Translator:
                          len(t.targets) == 1 and isinstance(t.targets[0], ast.Name) and isinstance(t.value, ast.Constant) and
                          isinstance(t.value.value, int)}
         self.threshold, self.memseg_fields = None, None
+        self.formats = {}
+        self.int_consts = {}
+        for n in consts.body:
+            if isinstance(n, ast.Assign) and len(n.targets) == 1 and isinstance(n.targets[0], ast.Name) and \
+                    n.targets[0].id in imp.get('flipjump.fjm.fjm_consts', ()) and const_int(n.value) is not None:
+                self.int_consts[n.targets[0].id] = const_int(n.value)
+        for n in consts.body:
+            if isinstance(n, ast.Assign) and len(n.targets) == 1 and isinstance(n.targets[0], ast.Name) and \
+                    isinstance(n.value, ast.Constant) and isinstance(n.value.value, str) and n.value.value.startswith('<') and \
+                    len(n.value.value) > 1 and all(ch in CODES for ch in n.value.value[1:]) and \
+                    n.targets[0].id in imp.get('flipjump.fjm.fjm_consts', ()):
+                self.formats[n.targets[0].id] = n.value.value
         wr = [n for n in tree.body if isinstance(n, ast.ClassDef) and n.name == 'Writer']
         if len(wr) != 1 or wr[0].decorator_list or wr[0].bases:
             raise GenError(f'{PATH}: expected exactly one undecorated class Writer without base classes')
@@ -168,6 +267,7 @@ class Translator:
             self.defs[name] = hits[0]
             self.static[name] = decos == ['staticmethod']
         self.arity = {}
+        self.has_compress = any(isinstance(n, ast.FunctionDef) and n.name == '_compress_data' and not n.decorator_list for n in wr[0].body)
 
     def signature(self, coq):
         raise GenError(f'unexpected call of {coq}')
